@@ -39,6 +39,7 @@ PROFILES = {
     'del': Profile(p_tag=0.35, tags=PRIO_TAGS + DEL_TAGS + DEL_TAGS, p_remove=0.05),
     'all': Profile(p_tag=0.35, tags=PRIO_TAGS + DEL_TAGS + ['!new', '!unsafe'], p_remove=0.04),
     'notnew': Profile(p_tag=0.3, tags=PRIO_TAGS + DEL_TAGS + NEW_TAGS + NEW_TAGS, p_remove=0.03),
+    'notnewf': Profile(p_tag=0.3, tags=PRIO_TAGS + DEL_TAGS + NEW_TAGS + NEW_TAGS, dyn=['call', 'bind'], p_dyn=0.25, p_seq=0.3),
     'ops': Profile(p_tag=0.15, tags=PRIO_TAGS + DEL_TAGS, ops=['append', 'extend', 'prev', 'clear'], p_op=0.07, p_seq=0.4),
     'func': Profile(p_tag=0.25, tags=PRIO_TAGS + DEL_TAGS, dyn=['call', 'bind', 'callstr'], p_dyn=0.3),
     'required': Profile(p_tag=0.2, tags=PRIO_TAGS + DEL_TAGS, dyn=['required', 'call'], p_dyn=0.3, p_remove=0.05),
